@@ -31,6 +31,7 @@ type script struct {
 	frag    string        // fragmentation schedule of both pipes: "" | "1" | "2" | "3" | "7" | "rnd"
 	timeout time.Duration // keepalive timeout (0 = none)
 	pad     int
+	noClone bool // the echo handler sends back the object the agent decoded (as the mirror example does)
 }
 
 func sendOps(ms ...edge.Message) []op {
@@ -135,14 +136,12 @@ func runSession(sc script, rnd *rand.Rand) (*sessionResult, error) {
 	rec := &recorder{}
 	ff := fragFn(sc.frag, rnd)
 	var outMu sync.Mutex
-	outCond := sync.NewCond(&outMu)
 	nOut := 0
 	s := newSession(sessOpts{Timeout: sc.timeout, FragTo: ff(), FragFrom: ff(), Wants: agent.EdgeType_STREAM, Provides: agent.EdgeType_STREAM,
-		Pad: sc.pad, OnOut: func(m edge.Message) {
+		Pad: sc.pad, NoClone: sc.noClone, OnOut: func(m edge.Message) {
 			rec.ev("Out", rt.M{"item": encMsg(m)})
 			outMu.Lock()
 			nOut++
-			outCond.Broadcast()
 			outMu.Unlock()
 		}})
 	res := &sessionResult{rec: rec}
@@ -184,6 +183,9 @@ func runSession(sc script, rnd *rand.Rand) (*sessionResult, error) {
 		}
 		switch o.k {
 		case "send":
+			if aborted {
+				continue // UDFNode's input goroutine has returned: nothing is offered any more
+			}
 			rec.ev("Send", rt.M{"item": encMsg(o.m)})
 			ok, err := s.send(o.m, opDeadline)
 			if err != nil {
@@ -250,16 +252,20 @@ func runSession(sc script, rnd *rand.Rand) (*sessionResult, error) {
 			s.srv.Abort(fmt.Errorf("owner abort"))
 			aborted = true
 		case "waitOut":
-			deadline := time.AfterFunc(opDeadline, func() { outMu.Lock(); outCond.Broadcast(); outMu.Unlock() })
+			// until n outputs were seen - or the server has aborted (then nothing more will come; the rest of the
+			// script runs as it would below a UDF node whose UDF is gone)
 			start := time.Now()
-			outMu.Lock()
-			for nOut < o.n && time.Since(start) < opDeadline {
-				outCond.Wait()
+			got := 0
+			for {
+				outMu.Lock()
+				got = nOut
+				outMu.Unlock()
+				if got >= o.n || isAborted(s) || time.Since(start) > opDeadline {
+					break
+				}
+				time.Sleep(200 * time.Microsecond)
 			}
-			got := nOut
-			outMu.Unlock()
-			deadline.Stop()
-			if got < o.n {
+			if got < o.n && !isAborted(s) {
 				rec.ev("OutMissing", rt.M{"have": got, "want": o.n})
 				return res, nil
 			}
@@ -508,7 +514,8 @@ func Run(r *rt.Run) error {
 	}
 
 	spurious, ticks := 0, 0
-	for _, sc := range scripts {
+	for i, sc := range scripts {
+		sc.noClone = i%2 == 1
 		var res *sessionResult
 		for attempt := 0; ; attempt++ {
 			var err error
